@@ -18,6 +18,8 @@ func checkC15(c *Ctx, r *Report) {
 	ruleNoCoercion(c, r, "no-coercion")
 	ruleErrorsPropagate(c, r, "errors-propagate")
 	ruleMapRange(c, r, "map-range")
+	c.ruleNoGlobalWrites(r, "no-global-state")
+	ruleMappingRule(c, r, "mapping-rule")
 	r.rule("bind-entry", 1, "Bind forwards to copyBlocks and returns its result")
 	if _, fd := c.find("Bind"); fd != nil {
 		ok := false
@@ -75,8 +77,12 @@ func ruleMappingRule(c *Ctx, r *Report, rule string) {
 		}
 		return true
 	})
+	badStore := ""
 	for _, tf := range tableFuncs {
 		ast.Inspect(tf.Body, func(n ast.Node) bool {
+			if _, isLit := n.(*ast.FuncLit); isLit {
+				return false
+			}
 			as, ok := n.(*ast.AssignStmt)
 			if !ok || len(as.Lhs) != 1 {
 				return true
@@ -85,7 +91,8 @@ func ruleMappingRule(c *Ctx, r *Report, rule string) {
 			if !ok {
 				return true
 			}
-			if _, isMap := c.typeOf(ix.X).Underlying().(*types.Map); !isMap {
+			mt, isMap := c.typeOf(ix.X).Underlying().(*types.Map)
+			if !isMap || types.TypeString(mt.Key(), nil) != "string" || !isInt(mt.Elem()) {
 				return true
 			}
 			// the key must be the direct result of Tag.Get("bcl")
@@ -95,15 +102,44 @@ func ruleMappingRule(c *Ctx, r *Report, rule string) {
 					key = def
 				}
 			}
+			goodKey := false
 			if call, ok := key.(*ast.CallExpr); ok && c.calleeName(call) == "reflect.StructTag.Get" {
 				if s, isS := c.strConst(call.Args[0]); isS && s == "bcl" {
-					okTable = true
+					goodKey = true
 				}
+			}
+			// the stored index is the induction variable of `for i := 0; i < t.NumField(); i++` (the index space of t.Field)
+			goodIdx := false
+			if vid, ok := as.Rhs[0].(*ast.Ident); ok {
+				pm := parentMap(tf.Body)
+				for p := pm[as]; p != nil; p = pm[p] {
+					fs, isFor := p.(*ast.ForStmt)
+					if !isFor {
+						if _, isRange := p.(*ast.RangeStmt); isRange {
+							break
+						}
+						continue
+					}
+					if cond, ok := stripParens(fs.Cond).(*ast.BinaryExpr); ok && cond.Op == token.LSS && c.isObj(cond.X, c.objOf(vid)) {
+						if call, ok := stripParens(cond.Y).(*ast.CallExpr); ok && c.calleeName(call) == "reflect.Type.NumField" {
+							goodIdx = true
+						}
+					}
+					break
+				}
+			}
+			if goodKey && goodIdx {
+				okTable = true
+			} else {
+				badStore = c.pos(as.Pos())
 			}
 			return true
 		})
 	}
-	r.check(okTable, rule, "tag-table", `table[f.Tag.Get("bcl")] = i`, "the tag table must be keyed by the raw value of the `bcl` tag", c.pos(cb.Pos()))
+	if badStore != "" {
+		okTable = false
+	}
+	r.check(okTable, rule, "tag-table", `table[f.Tag.Get("bcl")] = i for i < t.NumField(), nothing else`, "every entry of the tag table must be keyed by the raw value of a `bcl` tag and hold the field's index in t.Field's index space (for i := 0; i < t.NumField(); i++); offending store at "+badStore, c.pos(cb.Pos()))
 	// order inside setField
 	tagAt, nameAt := -1, -1
 	rawKey, underNotOK, cutFirst := false, false, false
@@ -189,6 +225,10 @@ func ruleMappingRule(c *Ctx, r *Report, rule string) {
 	} else {
 		r.bad(rule, "unsnakeMatcher", "function not found", "")
 	}
+	if _, ue := c.find("unsnakeEq"); ue != nil {
+		sp := c.underscoreStrippedParams(ue, 0)
+		r.check(len(sp) == 1 && sp[1], rule, "unsnakeEq", "underscores removed from the second argument only", fmt.Sprintf("unsnakeEq(orig, snake) must remove underscores from its second argument (the BCL spelling) and compare it with the first (the Go name); parameters whose underscores are removed: %v", sp), c.pos(ue.Pos()))
+	}
 	// type name check: st != "" && !unsnakeEq(st, bt)  (any equivalent spelling) -> error
 	okType := false
 	ast.Inspect(cb.Body, func(n ast.Node) bool {
@@ -209,8 +249,12 @@ func ruleMappingRule(c *Ctx, r *Report, rule string) {
 			if _, isEmpty, ok := c.emptyStringCmp(a); ok && !isEmpty {
 				nonEmpty = true
 			}
-			if call, ok := a.E.(*ast.CallExpr); ok && !a.Pos && c.calleeName(call) == "unsnakeEq" {
-				mismatch = true
+			if call, ok := a.E.(*ast.CallExpr); ok && !a.Pos && c.calleeName(call) == "unsnakeEq" && len(call.Args) == 2 {
+				// unsnakeEq(Go type name, block type): the first is t.Name(), the second block.Type
+				a0, a1 := c.resolveInit(a, call.Args[0]), c.resolveInit(a, call.Args[1])
+				if n0, ok := stripParens(a0).(*ast.CallExpr); ok && c.calleeName(n0) == "reflect.Type.Name" && c.fieldPath(a1) == "<Block>.Type" {
+					mismatch = true
+				}
 			}
 		}
 		returnsErr := false
@@ -224,7 +268,7 @@ func ruleMappingRule(c *Ctx, r *Report, rule string) {
 		}
 		return true
 	})
-	r.check(okType, rule, "type-name", `struct type name != "" && !unsnakeEq(name, block type) -> error`, "a named struct type must be checked against the block type with unsnakeEq, and unnamed struct types skipped", c.pos(cb.Pos()))
+	r.check(okType, rule, "type-name", `struct type name != "" && !unsnakeEq(type name, block type) -> error`, "a named struct type must be checked with unsnakeEq(Go type name, block type) — in this order — and unnamed struct types skipped", c.pos(cb.Pos()))
 	// Name first
 	firstCall := ""
 	for _, s := range cb.Body.List {
@@ -246,9 +290,61 @@ func ruleMappingRule(c *Ctx, r *Report, rule string) {
 
 func checkC05(c *Ctx, r *Report) {
 	ruleMappingRule(c, r, "mapping-rule")
+	ruleStringOpaque(c, r, "string-literal-scan")
 	ruleNoCoercion(c, r, "no-coercion")
 	ruleReflectGuards(c, r, "fresh-slice-and-guards")
 	ruleMapRange(c, r, "map-range")
 	ruleErrorsPropagate(c, r, "errors-propagate")
 	r.note("the round trip itself (write a value as BCL text, unmarshal, compare deeply): it ranges over run-time reflect types and values; only the structure of the mapping rule, the fresh-slice construction and the absence of coercion are decided — this check is thin, and says so")
+}
+
+// underscoreStrippedParams: the indexes of fd's parameters whose value is
+// handed (directly or through module functions, including closures those
+// return) to strings.Replace/ReplaceAll(x, "_", "", ...).
+func (c *Ctx) underscoreStrippedParams(fd *ast.FuncDecl, depth int) map[int]bool {
+	out := map[int]bool{}
+	if fd == nil || fd.Body == nil || depth > 4 {
+		return out
+	}
+	params := map[types.Object]int{}
+	k := 0
+	for _, f := range fd.Type.Params.List {
+		for _, n := range f.Names {
+			params[c.objOf(n)] = k
+			k++
+		}
+	}
+	paramOf := func(e ast.Expr) (int, bool) {
+		id, ok := stripParens(e).(*ast.Ident)
+		if !ok {
+			return 0, false
+		}
+		i, ok := params[c.objOf(id)]
+		return i, ok
+	}
+	ast.Inspect(fd.Body, func(n ast.Node) bool {
+		call, ok := n.(*ast.CallExpr)
+		if !ok {
+			return true
+		}
+		name := c.calleeName(call)
+		if (name == "strings.ReplaceAll" || name == "strings.Replace") && len(call.Args) >= 3 {
+			if a, ok := c.strConst(call.Args[1]); ok && a == "_" {
+				if i, ok := paramOf(call.Args[0]); ok {
+					out[i] = true
+				}
+			}
+			return true
+		}
+		if fn, ok := c.callee(call).(*types.Func); ok && fn.Pkg() != nil && fn.Pkg().Path() == bclPath {
+			inner := c.underscoreStrippedParams(c.funcDecls[fn], depth+1)
+			for j, a := range call.Args {
+				if i, ok := paramOf(a); ok && inner[j] {
+					out[i] = true
+				}
+			}
+		}
+		return true
+	})
+	return out
 }
